@@ -325,10 +325,11 @@ def c17_jobs(tier):
     T = 900 if tier == 'quick' else 3600
     K = 2 if tier == 'quick' else 3
     for manual in (0, 1):
-        j = product_job('self-prefill-m%d-k%d' % (manual, K), 'selfcomp.cpp', dict(ROLE=0, KSTEPS=K, MANUAL=manual), {}, {}, (1700, 1701), (1700, 1799),
+        pay = 1 if (manual == 1 or tier != 'quick') else 0      # quick: payload on the manual variant only
+        j = product_job('self-prefill-m%d-p%d-k%d' % (manual, pay, K), 'selfcomp.cpp', dict(ROLE=0, KSTEPS=K, MANUAL=manual, PAYLOAD=pay), {}, {}, (1700, 1701), (1700, 1799),
                         unwind=max(K + 3, 6), timeout=T, steps=K + 2, nch=12, ntr=28)
         j.unwindset['nondet_fill.0'] = 200; j.weight_gb = 4.0; J.append(j)
-        j = Job('self-copy-m%d-k%d' % (manual, K), 'selfcomp.cpp', dict(ROLE=1, KSTEPS=K, MANUAL=manual), unwind=K + 4, unwindset={'nondet_fill.0': 200}, timeout=T, prop=(1700, 1799))
+        j = Job('self-copy-m%d-p%d-k%d' % (manual, pay, K), 'selfcomp.cpp', dict(ROLE=1, KSTEPS=K, MANUAL=manual, PAYLOAD=pay), unwind=K + 4, unwindset={'nondet_fill.0': 200}, timeout=T, prop=(1700, 1799))
         j.weight_gb = 4.0; J.append(j)
     if tier != 'quick':
         j = product_job('self-prefill-m0-k4-nopay', 'selfcomp.cpp', dict(ROLE=0, KSTEPS=4, MANUAL=0, PAYLOAD=0), {}, {}, (1700, 1701), (1700, 1799), unwind=8, timeout=T, steps=6, nch=12, ntr=28)
@@ -446,7 +447,7 @@ def triage_ub(pid, job, r, work, variants, known, here):
     for u in r['ub_failed']: by_variant.setdefault(u['variant'], u)
     for vname, u in by_variant.items():
         cmd = r['cmds'][vname]
-        draws, key, fn, trace_out, dt = engine.first_failure_trace(cmd, job.timeout * 2, job.mem_gb)
+        draws, key, fn, trace_out, dt = engine.first_failure_trace(cmd, job.timeout * 3, max(job.mem_gb * 2, 24))
         key = re.sub(r'\s+', ' ', key or u['desc'])[:80]
         if not draws:
             out['inconclusive'].append('%s: %d UB checks fail in the solver but no counterexample trace could be extracted' % (job.name, len(r['ub_failed']))); continue
